@@ -42,12 +42,8 @@ func NewServer() (*Server, error) {
 		MaxRequestBodySize: 1 * 1024 * 1024,
 
 		MaxIdleWorkerDuration: 15 * time.Second,
-		ReduceMemoryUsage:     false,
+		ReduceMemoryUsage:     true,
 		Concurrency:           0,
-		// ReduceMemoryUsage stays off: with it fasthttp waits for the first byte
-		// of a new connection without any deadline, so a client that connects
-		// and sends nothing is never given up on (ReadTimeout does not apply
-		// yet) and keeps its descriptor for as long as it likes
 
 		TCPKeepalive:      true,
 		DisableKeepalive:  false,
@@ -75,7 +71,7 @@ func (s *Server) Start(addr string) {
 		slog.Info("starting server", "address", addr)
 		ln, err := net.Listen("tcp4", addr)
 		if err == nil {
-			err = s.srv.Serve(patientListener{ln})
+			err = s.srv.Serve(patientListener{Listener: ln, firstRead: s.srv.ReadTimeout})
 		}
 		if err != nil {
 			s.errCh <- fmt.Errorf("server error: %w", err)
@@ -88,7 +84,18 @@ func (s *Server) Start(addr string) {
 // fasthttp ends its accept loop - and with it the service - on any accept
 // error that is not a timeout, so a burst of connections beyond the
 // descriptor limit would stop the server for good.
-type patientListener struct{ net.Listener }
+//
+// It also puts the first read of every connection under a deadline. With
+// ReduceMemoryUsage fasthttp waits for the first byte of a new connection
+// with a bare read, before ReadTimeout or IdleTimeout apply, so a client that
+// connects and sends nothing would keep its descriptor for as long as it
+// likes. (Switching ReduceMemoryUsage off cures that too, but then fasthttp
+// keeps a finished response back while the next request's body is still
+// outstanding.) fasthttp sets its own deadlines from the first byte on.
+type patientListener struct {
+	net.Listener
+	firstRead time.Duration
+}
 
 func (l patientListener) Accept() (net.Conn, error) {
 	for {
@@ -96,6 +103,9 @@ func (l patientListener) Accept() (net.Conn, error) {
 		if errors.Is(err, syscall.EMFILE) || errors.Is(err, syscall.ENFILE) {
 			time.Sleep(50 * time.Millisecond)
 			continue
+		}
+		if err == nil && l.firstRead > 0 {
+			_ = c.SetReadDeadline(time.Now().Add(l.firstRead))
 		}
 		return c, err
 	}
